@@ -1416,3 +1416,113 @@ theorem greachable_iff (chk : Nat → Nat → Bool) (v0 : Nat) (s : State) :
     exact ⟨ls, (mach_run chk ls (init v0)).symm.trans this⟩
 
 end Woodpile.Abt.SC
+
+/-! ### The programs run alone refine the sequential specification (gap 10) -/
+namespace Woodpile.Abt.SC
+
+/-- The writer mutex is free and not poisoned (so, by `Inv.lock`, no thread is inside
+`advance_once`; readers and threads about to lock may be anywhere). -/
+def Quiescent (s : State) : Prop := s.held = none ∧ s.poisoned = false
+
+/-- The cell's abstract value: the most recently published pair. -/
+def cellOf (s : State) : Option (Nat × Nat) := s.hist.getLast?
+
+theorem cell_mem {chk : Nat → Nat → Bool} {s : State} (hI : Inv chk s) {cur : Nat × Nat}
+    (hcur : cellOf s = some cur) :
+    s.mem (.b (odd (s.mem .seq))) = cur.1 ∧ s.mem (.v (odd (s.mem .seq))) = cur.2 := by
+  have hlast : s.hist.getLast? = s.hist[s.mem .seq]? := by
+    rw [List.getLast?_eq_getElem?, hI.len]; simp
+  unfold cellOf at hcur
+  rw [hlast, hI.cur] at hcur
+  simp at hcur; subst hcur; exact ⟨rfl, rfl⟩
+
+set_option linter.unusedSimpArgs false in
+/-- The programs of `update` and `try_update`, run alone from a quiescent state: what they do
+is `seqUpdate` of the cell's abstract value. -/
+theorem writer_refines {chk : Nat → Nat → Bool} {s : State} (hI : Inv chk s) (hq : Quiescent s) (t : Nat)
+    (hterm : (s.thr t).pc.terminal = true) (cur : Nat × Nat) (hcur : cellOf s = some cur) (b v : Nat)
+    (op : Op) (hop : op = .update b v ∨ op = .tryUpdate b v) :
+    match seqUpdate chk cur b v with
+    | some (cur', r) =>
+      ∃ s', run chk s (.start t op :: List.replicate (if r then 8 else 5) (.run t 0)) = some s' ∧
+        (s'.thr t).pc = .retBool r ∧ Quiescent s' ∧ cellOf s' = some cur' ∧
+        s'.hist = (if r then s.hist ++ [(b, v)] else s.hist)
+    | none =>
+      ∃ s', run chk s (.start t op :: List.replicate 5 (.run t 0)) = some s' ∧
+        (s'.thr t).pc = .aPanic ∧ s'.held = none ∧ s'.poisoned = true ∧ s'.hist = s.hist := by
+  obtain ⟨hb, hv⟩ := cell_mem hI hcur
+  obtain ⟨hq1, hq2⟩ := hq
+  unfold cellOf at *
+  by_cases h1 : b < cur.1
+  · simp only [seqUpdate, h1, if_true]
+    rcases hop with rfl | rfl <;>
+      simp [List.replicate, run, step, hterm, Local.start, Local.next, Local.feedLock, Local.feedLoad,
+        Local.feedUnit, upd_same, hq1, hq2, hb, h1, Quiescent, cellOf, hcur]
+  · by_cases h2 : chk b v = true
+    · simp only [seqUpdate, h1, h2, if_false, Bool.not_true]
+      rcases hop with rfl | rfl <;>
+        simp [List.replicate, run, step, hterm, Local.start, Local.next, Local.feedLock, Local.feedLoad,
+          Local.feedUnit, upd_same, hq1, hq2, hb, h1, h2, Quiescent, cellOf]
+    · simp only [seqUpdate, h1, h2, if_false]
+      rcases hop with rfl | rfl <;>
+        simp [List.replicate, run, step, hterm, Local.start, Local.next, Local.feedLock, Local.feedLoad,
+          Local.feedUnit, upd_same, hq1, hq2, hb, h1, h2, Quiescent, cellOf]
+
+
+/-- `snapshot` run alone - from ANY reachable state: other threads may be anywhere, a writer may
+hold the lock half way through its stores, the mutex may be poisoned - performs four loads,
+changes nothing shared, and returns the cell's abstract value (`seqSnapshot`, whose assertion
+cannot fire). -/
+theorem snapshot_refines {chk : Nat → Nat → Bool} {s : State} (hI : Inv chk s) (t : Nat)
+    (hterm : (s.thr t).pc.terminal = true) (cur : Nat × Nat) (hcur : cellOf s = some cur) :
+    seqSnapshot chk cur = some cur ∧
+    ∃ s', run chk s (.start t .snapshot :: List.replicate 4 (.run t 0)) = some s' ∧
+      (s'.thr t).pc = .retSnap ∧ ((s'.thr t).base, (s'.thr t).bits) = cur ∧
+      s'.mem = s.mem ∧ s'.held = s.held ∧ s'.poisoned = s.poisoned ∧ s'.hist = s.hist := by
+  obtain ⟨hb, hv⟩ := cell_mem hI hcur
+  have hc : chk cur.1 cur.2 = true := hI.chkAll cur (List.mem_of_getLast? hcur)
+  refine ⟨by simp [seqSnapshot, hc], ?_⟩
+  simp [List.replicate, run, step, hterm, Local.start, Local.next, Local.feedLoad, upd_same, hb, hv, hc]
+
+
+set_option linter.unusedSimpArgs false in
+/-- Where `update` and `try_update` differ when run alone: on a poisoned (free) mutex.  `update`
+clears the poison (three extra steps: the poisoned `lock()`, `clear_poison`, dropping the
+guard inside the error) and then behaves as on a clean mutex ... -/
+theorem update_recovers_from_poison {chk : Nat → Nat → Bool} {s : State} (hI : Inv chk s)
+    (hheld : s.held = none) (hpois : s.poisoned = true) (t : Nat)
+    (hterm : (s.thr t).pc.terminal = true) (cur : Nat × Nat) (hcur : cellOf s = some cur) (b v : Nat) :
+    match seqUpdate chk cur b v with
+    | some (cur', r) =>
+      ∃ s', run chk s (.start t (.update b v) :: List.replicate (if r then 11 else 8) (.run t 0)) = some s' ∧
+        (s'.thr t).pc = .retBool r ∧ Quiescent s' ∧ cellOf s' = some cur' ∧
+        s'.hist = (if r then s.hist ++ [(b, v)] else s.hist)
+    | none =>
+      ∃ s', run chk s (.start t (.update b v) :: List.replicate 8 (.run t 0)) = some s' ∧
+        (s'.thr t).pc = .aPanic ∧ s'.held = none ∧ s'.poisoned = true ∧ s'.hist = s.hist := by
+  obtain ⟨hb, hv⟩ := cell_mem hI hcur
+  unfold cellOf at *
+  by_cases h1 : b < cur.1
+  · simp only [seqUpdate, h1, if_true]
+    simp [List.replicate, run, step, hterm, Local.start, Local.next, Local.feedLock, Local.feedLoad,
+        Local.feedUnit, upd_same, hheld, hpois, hb, h1, Quiescent, cellOf, hcur]
+  · by_cases h2 : chk b v = true
+    · simp only [seqUpdate, h1, h2, if_false, Bool.not_true]
+      simp [List.replicate, run, step, hterm, Local.start, Local.next, Local.feedLock, Local.feedLoad,
+          Local.feedUnit, upd_same, hheld, hpois, hb, h1, h2, Quiescent, cellOf]
+    · simp only [seqUpdate, h1, h2, if_false]
+      simp [List.replicate, run, step, hterm, Local.start, Local.next, Local.feedLock, Local.feedLoad,
+          Local.feedUnit, upd_same, hheld, hpois, hb, h1, h2, Quiescent, cellOf]
+
+/-- ... whereas `try_update` on a poisoned mutex clears the poison and returns `false` without
+looking at its argument (three steps), whatever `seqUpdate` says.  (A mutex is poisoned only by
+a panic inside `advance_once`, i.e. by an `update`/`try_update` with an invalid pair.) -/
+theorem try_update_poisoned_returns_false (chk : Nat → Nat → Bool) (s : State)
+    (hheld : s.held = none) (hpois : s.poisoned = true) (t : Nat)
+    (hterm : (s.thr t).pc.terminal = true) (b v : Nat) :
+    ∃ s', run chk s (.start t (.tryUpdate b v) :: List.replicate 3 (.run t 0)) = some s' ∧
+      (s'.thr t).pc = .retBool false ∧ Quiescent s' ∧ s'.hist = s.hist ∧ s'.mem = s.mem := by
+  simp [List.replicate, run, step, hterm, Local.start, Local.next, Local.feedLock, Local.feedUnit, upd_same,
+    hheld, hpois, Quiescent]
+
+end Woodpile.Abt.SC
